@@ -89,10 +89,7 @@ func (r *Run) pushAlt(d Decision) {
 }
 
 func (r *Run) check(extra ...*Term) Result {
-	lits := make([]*Term, 0, len(r.pc)+len(extra))
-	lits = append(lits, r.pc...)
-	lits = append(lits, extra...)
-	res, _ := r.w.solver.Check(lits, nil)
+	res, _ := r.w.solver.Check(r.pc, nil, extra...)
 	return res
 }
 
@@ -193,8 +190,7 @@ func (r *Run) concretize(t *Term) *big.Int {
 			r.addPC(tc.Not(eq))
 			continue
 		}
-		lits := append(append([]*Term{}, r.pc...))
-		res, model := r.w.solver.Check(lits, []*Term{t})
+		res, model := r.w.solver.Check(r.pc, []*Term{t})
 		if res != Sat || model == nil {
 			if res == Unsat {
 				panic(runAbort{"infeasible"})
@@ -314,9 +310,11 @@ func (r *Run) newNondet(label string, s Sort, lo, hi *big.Int) *Term {
 }
 
 func (r *Run) nondetTerms() []*Term {
-	ts := make([]*Term, len(r.nondets))
-	for i, n := range r.nondets {
-		ts[i] = n.term
+	var ts []*Term
+	for _, n := range r.nondets {
+		if n.term != nil && !n.term.isCon {
+			ts = append(ts, n.term)
+		}
 	}
 	return ts
 }
@@ -341,8 +339,7 @@ func (r *Run) assert(cond value, msg string, pos string) {
 	}
 	r.assertsSym++
 	neg := r.tc.Not(t)
-	lits := append(append([]*Term{}, r.pc...), neg)
-	res, model := r.w.solver.Check(lits, r.nondetTerms())
+	res, model := r.w.solver.Check(r.pc, r.nondetTerms(), neg)
 	switch res {
 	case Unsat:
 		return
@@ -353,7 +350,9 @@ func (r *Run) assert(cond value, msg string, pos string) {
 	// violated
 	m := map[string]string{}
 	for _, n := range r.nondets {
-		if v, ok := model[n.term.name]; ok {
+		if n.term != nil && n.term.isCon && n.term.sort == SInt {
+			m[n.Name] = n.term.ival.String()
+		} else if v, ok := model[n.term.name]; ok {
 			m[n.Name] = v
 		}
 	}
@@ -389,7 +388,9 @@ func (r *Run) modelSample() map[string]string {
 	}
 	m := map[string]string{}
 	for _, n := range r.nondets {
-		if v, ok := model[n.term.name]; ok {
+		if n.term != nil && n.term.isCon && n.term.sort == SInt {
+			m[n.Name] = n.term.ival.String()
+		} else if v, ok := model[n.term.name]; ok {
 			m[n.Name] = v
 		}
 	}
